@@ -286,7 +286,7 @@ def end_to_end(ctx):
             if k != line:
                 col.violation(f"{tag}/e2e/line", f"{tag}: picked line {k}, the sinusoid sits at line {line}", rep)
             m1, m2 = mac(ph, amp), mac(ph, amp.conj())
-            if not (m1 > (1 - 1e-6 if a.run_params.method_SD == 'per' else 0.999) and m2 < 0.9):
+            if not (m1 > (1 - 1e-6 if a.run_params.method_SD == 'per' else 0.99) and m2 < 0.9):
                 col.violation(f"{tag}/e2e/conjugation", f"{tag}: MAC with amplitudes {m1:.6f}, with their conjugate {m2:.6f}", rep)
             if abs(abs(ph[np.argmax(np.abs(ph))]) - 1) > 1e-12:
                 col.violation(f"{tag}/e2e/normalisation", f"{tag}: largest component of the shape is not 1", rep)
